@@ -21,6 +21,7 @@ import z3
 
 from . import sym
 from .sym import SInt, SBool, Unsupported, _tobool
+from . import uint as _uint
 
 Z3_TIMEOUT_MS = int(os.environ.get("PYVC_Z3_TIMEOUT_MS", "20000"))
 CVC5_TIMEOUT_S = int(os.environ.get("PYVC_CVC5_TIMEOUT_S", "40"))
@@ -105,6 +106,12 @@ class Path:
         rc = v.range_constraint()
         if not z3.is_true(rc):
             self.pc.append(rc)
+        return v
+
+    def uvar(self, name):
+        """A fresh unbounded integer (tier U)."""
+        v = _uint.UInt.var(name)
+        self.x._declare(name, v)
         return v
 
     def boolvar(self, name):
@@ -203,16 +210,18 @@ class Exploration:
         self._todo.append(prefix)
 
     def _sat_check(self, constraints):
-        key = tuple(c.get_id() for c in constraints)
+        facts = _uint.LEMMAS.facts
+        key = tuple(c.get_id() for c in constraints) + (len(facts),)
         r = self._cache.get(key)
         if r is None:
-            r, _m, _b, dt = _solve(constraints, timeout_ms=5000)
+            r, _m, _b, dt = _solve(list(constraints) + list(facts), timeout_ms=5000)
             self.solver_time += dt
             self._cache[key] = r
         return r
 
     def run(self):
         self._todo = [[]]
+        _uint.LEMMAS.reset()
         merged = {}                      # obligation name -> list of (pc, cond, path index)
         order = []
         while self._todo:
@@ -248,7 +257,7 @@ class Exploration:
                 if z3.is_true(z3.simplify(cond)):
                     backends.add("simplifier")
                     continue
-                verdict, model, backend, dt = _solve([pc, z3.Not(cond)])
+                verdict, model, backend, dt = _solve([pc, z3.Not(cond)] + list(_uint.LEMMAS.facts))
                 self.solver_time += dt
                 ob.time_s += dt
                 backends.add(backend)
@@ -266,7 +275,7 @@ class Exploration:
     def _model_dict(self, model):
         out = {}
         for name, v in self.vars.items():
-            out[name] = sym.concrete(v, model)
+            out[name] = _uint.concrete(v, model)
         return out
 
     # --- summary helpers
